@@ -106,7 +106,8 @@ Fixpoint wl_ok (seen : list Z) (l : list wl_entry) : bool :=
       w_lower w && w_bech32 w && negb (existsb (Z.eqb (w_id w)) seen) && wl_ok (w_id w :: seen) r
   end.
 Definition params_valid (p : params) : bool :=
-  negb (p_version p =? 0) && (p_version p <=? LATEST_VERSION) && wl_ok [] (p_whitelist p).
+  (* ProtocolVersion is a uint32: "== 0" is "below 1" *)
+  (0 <? p_version p) && (p_version p <=? LATEST_VERSION) && wl_ok [] (p_whitelist p).
 
 (* ---------------------------------------------------------------- keeper *)
 
@@ -138,12 +139,15 @@ Variable caddr : Z -> Z.
 
 (* keeper.DeployErc20CustomPrecompiledContract; note the module sequence stays incremented when the final
    SetCustomPrecompiledContractMeta fails (a message handler's failure is rolled back by the SDK, see [msg]) *)
-Definition deploy_erc20 (s : state) (name symbol decimals denom : Z) : state * res :=
+Definition deploy_erc20 (s : state) (dvalid : bool) (name symbol decimals denom : Z) : state * res :=
   if negb (erc20_meta_valid symbol decimals denom) then (s, RErr)
   else match lookup (didx s) denom with
        | Some _ => (s, RErr)                                        (* existing contract for denom *)
        | None =>
-           if negb (0 <? supply s denom) then (s, RErr)             (* zero supply *)
+           (* bankKeeper.GetSupply builds sdk.NewCoin(denom, amount), which panics for a string that is not a
+              valid SDK denomination ([dvalid] = sdk.ValidateDenom(denom) passes) *)
+           if negb dvalid then (s, RPanic)
+           else if negb (0 <? supply s denom) then (s, RErr)        (* zero supply *)
            else
              let addr := caddr (mseq s) in
              let s1 := with_seq s (mseq s + 1) in
@@ -177,7 +181,7 @@ Definition vb_deploy_staking (ext_ok : bool) (symbol decimals : Z) : bool :=
 Inductive op :=
 (* vb = true: the message goes through the message router / a transaction (ValidateBasic runs first);
    vb = false: the message server is called directly *)
-| MDeployErc20 (vb ext_ok : bool) (auth name symbol decimals denom : Z)      (* decimals is the uint32 field *)
+| MDeployErc20 (vb ext_ok dvalid : bool) (auth name symbol decimals denom : Z)   (* decimals is the uint32 field *)
 | MDeployStaking (vb ext_ok : bool) (auth symbol decimals : Z)
 | MUpdateParams (authority_ok : bool) (np : params)                          (* authority_ok: req.Authority = gov module address *)
 (* the exported keeper API, as an upgrade handler would use it *)
@@ -195,10 +199,10 @@ Definition atomic (s : state) (x : state * res) : state * res :=
 
 Definition step (s : state) (o : op) : state * res :=
   match o with
-  | MDeployErc20 vb ext_ok auth name symbol decimals denom =>
+  | MDeployErc20 vb ext_ok dvalid auth name symbol decimals denom =>
       if vb && negb (vb_deploy_erc20 ext_ok name symbol decimals denom) then (s, RErr)
       else if negb (whitelisted s auth) then (s, RErr)
-      else atomic s (deploy_erc20 s name symbol (decimals mod 256) denom)        (* uint8(req.Decimals) *)
+      else atomic s (deploy_erc20 s dvalid name symbol (decimals mod 256) denom) (* uint8(req.Decimals) *)
   | MDeployStaking vb ext_ok auth symbol decimals =>
       if vb && negb (vb_deploy_staking ext_ok symbol decimals) then (s, RErr)
       else if negb (whitelisted s auth) then (s, RErr)
@@ -232,6 +236,7 @@ Record genesis := {
   g_erc20_native : bool;
   g_staking : bool;
   g_bond_denom : Z;                 (* staking params BondDenom *)
+  g_bond_valid : bool;              (* sdk.ValidateDenom(BondDenom) passes *)
   g_erc20_name : Z; g_erc20_symbol : Z;   (* "Wrapped <SYMBOL>", "W<SYMBOL>" *)
   g_staking_symbol : Z;             (* "Staking-<SYMBOL>" *)
   g_decimals : Z                    (* constants.BaseDenomExponent *)
@@ -242,7 +247,7 @@ Definition init_genesis (s : state) (g : genesis) : option state :=
   match set_params s (g_params g) with
   | (s1, ROk _) =>
       let r2 := if g_erc20_native g
-                then deploy_erc20 s1 (g_erc20_name g) (g_erc20_symbol g) (g_decimals g) (g_bond_denom g)
+                then deploy_erc20 s1 (g_bond_valid g) (g_erc20_name g) (g_erc20_symbol g) (g_decimals g) (g_bond_denom g)
                 else (s1, ROk 0) in
       match r2 with
       | (s2, ROk _) =>
@@ -271,9 +276,17 @@ Definition empty_state (n : Z) (sup : Z -> Z) : state :=
 (* core/vm/contracts.go PrecompiledContractsBerlin: addresses 1..9 *)
 Definition std_precompile (a : Z) : bool := (1 <=? a) && (a <=? 9).
 
+(* The four ways a call reaches the EVM:
+     Deliver  FinalizeBlock -> msg_server.EthereumTx -> ApplyTransaction -> ApplyMessageWithConfig -> NewEVM
+     Check    CheckTx/ReCheckTx -> ante decorator app/antedl/evmlane/993e_exec_without_error.go -> NewEVM
+     Simulate BaseApp.Simulate -> the same ante decorator, then the message handler as in Deliver -> NewEVM
+     Query    gRPC EthCall / EstimateGas / Trace* -> ApplyMessageWithConfig -> NewEVM *)
+Inductive mode := Deliver | Check | Simulate | Query.
+
 (* x/evm/keeper NewEVM: EVERY stored contract is registered with the EVM together with its Disabled flag
-   (WithCustomPrecompiledContracts builds a map address -> contract; later entries replace earlier ones) *)
-Definition wire (s : state) : list (Z * cmeta) :=
+   (WithCustomPrecompiledContracts builds a map address -> contract; later entries replace earlier ones).
+   NewEVM is the only constructor and never consults the execution mode of the context. *)
+Definition wire (md : mode) (s : state) : list (Z * cmeta) :=
   fold_left (fun acc x => put acc (fst x) (snd x)) (metas s) [].
 
 Inductive dispatch :=
@@ -282,17 +295,16 @@ Inductive dispatch :=
 | DDisabled              (* ErrDisabledPrecompile: the frame fails, all gas is consumed *)
 | DNone.                 (* no precompile: ordinary account *)
 
-(* evm.precompile(addr): standard contracts first, then the custom map; RunPrecompiledContract checks disabled.
-   The execution mode (deliver, check, simulate, query) is not an input: NewEVM is the only constructor. *)
-Definition evm_dispatch (s : state) (a : Z) : dispatch :=
+(* evm.precompile(addr): standard contracts first, then the custom map; RunPrecompiledContract checks disabled *)
+Definition evm_dispatch (md : mode) (s : state) (a : Z) : dispatch :=
   if std_precompile a then DStd
-  else match lookup (wire s) a with
+  else match lookup (wire md s) a with
        | Some m => if m_disabled m then DDisabled else DCustom m
        | None => DNone
        end.
 
-Definition callable (s : state) (a : Z) : bool :=
-  match evm_dispatch s a with DCustom _ => true | _ => false end.
+Definition callable (md : mode) (s : state) (a : Z) : bool :=
+  match evm_dispatch md s a with DCustom _ => true | _ => false end.
 
 (* outcome classes of a probe call (input = 4-byte selector, value 0, ample gas) *)
 Inductive pres :=
@@ -319,8 +331,8 @@ Definition probe_custom (hrp : Z) (m : cmeta) (p : probe) : pres :=
   | _, _ => PRevert
   end.
 
-Definition probe_result (hrp : Z) (s : state) (a : Z) (p : probe) : pres :=
-  match evm_dispatch s a with
+Definition probe_result (hrp : Z) (md : mode) (s : state) (a : Z) (p : probe) : pres :=
+  match evm_dispatch md s a with
   | DStd => PStd
   | DCustom m => probe_custom hrp m p
   | DDisabled => PFail
